@@ -113,7 +113,7 @@ def run(chk, replay=None):
     chk.coverage["evaluations"] = n * 2
     chk.coverage["distinct_nontrivial"] = opaq * 2
     chk.coverage["exhaustive"] = True
-    chk.coverage["rule"] = ("complete matrix: 28 conversion rules (shared/mutable reference, CBox, CSliceBox, CArc, CArcSome, Fwd over each of them, object containers, generated object types Box/Mut/Ref with and "
+    chk.coverage["rule"] = ("complete matrix: 34 conversion rules (shared/mutable reference, CBox, CSliceBox, CArc, CArcSome, Fwd over each of them, object containers, objects of traits with temporary return storage and of generic traits, generated object types Box/Mut/Ref with and "
                             "without context and with a CArcSome instance, generated group types, cast group) x 4 payload classes {Send,!Send}x{Sync,!Sync} x markers {Send,Sync}; each cell is "
                             "evaluated by the trait solver inside an executed probe (inherent const shadows trait const). A cell violates when the opaque type has a marker its instance handle "
                             "lacks. 22 candidate handle shapes that have no rule on the pinned tree (Pin<..>, Option<..>, Box, Arc, Rc, raw pointers, CVec, slices, tuples; bare, inside Fwd, a container, an object and a group) are probed the same way and are vacuous until a rule appears; the `Opaquable for` headers in the source are counted and one without a row makes the run inconclusive. distinct = (opaquable cell, marker) pairs. Safe-code witnesses of representative cells are run under Miri's race detector")
